@@ -281,19 +281,20 @@ def judge_poly(inp, obs, lr):
         return {"expected": "starts at v0", "observed": verts[0].tolist(), "tags": dict(tags, what="start")}
     # every sampled point lies on one of the hyperbolic edges, inside the region, and the path moves along the edges in order
     samples = bezier_samples(verts, codes)
-    e, adv = 0, 0
-    for vi, p in samples:
+    # monotone assignment of samples to edges 0..k-1 (each sample on its edge, the edge index never decreases, steps of at most 1)
+    feas = {0}
+    for n_, (vi, p) in enumerate(samples):
         if not (finite(p) and in_region(model, p, 1e-6)):
             return {"expected": "path inside the model's region", "observed": p.tolist(), "tags": dict(tags, what="region")}
-        if on_edge(model, p, *edges[e]):
-            continue
-        if adv < k - 1 and on_edge(model, p, *edges[e + 1]):
-            e, adv = e + 1, adv + 1
-            continue
-        return {"expected": "every path point on the current or next hyperbolic edge", "observed": {"point": p.tolist(), "edge": e},
-                "tags": dict(tags, what="on_edge")}
-    if adv != k - 1:
-        return {"expected": "the path runs along all %d edges in order" % k, "observed": "reached edge %d" % e, "tags": dict(tags, what="edges")}
+        cand = feas | {e + 1 for e in feas if e + 1 < k}
+        feas = {e for e in cand if on_edge(model, p, *edges[e])}
+        if n_ == 0:
+            feas &= {0}
+        if not feas:
+            return {"expected": "every path point on the current or next hyperbolic edge", "observed": {"point": p.tolist(), "sample": n_},
+                    "tags": dict(tags, what="on_edge")}
+    if k - 1 not in feas:
+        return {"expected": "the path runs along all %d edges in order" % k, "observed": "ends on edges %s" % sorted(feas), "tags": dict(tags, what="edges")}
     return None
 
 
